@@ -6,7 +6,7 @@
    "the certificate is in c_trusted / s_client_trusted" (what Verify returns at the configured time, name, roots). *)
 From Coq Require Import List NArith Arith Bool Lia.
 From GmsmVerif Require Import Lib.Outcome HS.HSTerms HS.HSModel HS.HSProofs HS.HSClientFlight HS.HSTlsClientFlight HS.HSServerFlight HS.HSAuth HS.HSAuth2 HS.HSNames HS.HSSystem HS.HSSessions
-     HS.HSMsgParsers HS.HSMsgMarshal HS.HSMsgMarshalProofs Gen.HSSigTables HS.HSSigAlg HS.HSSigAlgProofs.
+     HS.HSMsgParsers HS.HSMsgMarshal HS.HSMsgMarshalProofs Gen.HSSigTables HS.HSSigAlg HS.HSSigAlgProofs Gen.HSTables HS.HSFlightTie.
 Import ListNotations.
 Local Open Scope N_scope.
 
@@ -298,6 +298,23 @@ Theorem C08_gm_certificate_verify_digest_agrees : forall pk peer ours, pk = PK_E
     verify_key_ok st pk = true.
 Proof. exact gm_certificate_verify_agrees. Qed.
 Print Assumptions C08_gm_certificate_verify_digest_agrees.
+
+(* 11. The key the CertificateVerify is checked with is the LEAF's, in the model and in the source: processCertsFromClient
+   (TLS and GM server state) returns the key of certs[i] for the index i the translator reads from its one
+   "switch key := certs[i].PublicKey.(type)" (it refuses any other shape, e.g. an assignment inside a loop over the
+   chain), and the server model accepts a CertificateVerify only if it verifies under the key of certificate i of the
+   peer's list over this transcript.  (The chain check, C08_clientauth_policy_table, is on certificate 0 as well.) *)
+Theorem C08_certificate_verify_checked_with_the_leaf_key : forall cfg st m st1 r,
+  ss_phase st = SP_CertVerify -> (r = SContinue \/ r = SComplete) ->
+  server_handshake_step cfg st m = (st1, r) ->
+  (gen_client_cert_key_index_gm, gen_client_cert_key_index_tls) = (0, 0) /\
+  exists alg sig, m = MCertificateVerify alg sig /\
+    verify (cert_pub (nth_cert (N.to_nat gen_client_cert_key_index_gm) (ss_peer st))) sig (THash (tlist (ss_tr st))) = true.
+Proof.
+  intros cfg st m st1 r Hph Hr H. split; [reflexivity|].
+  destruct (certificate_verify_key_is_source_index cfg st m st1 r Hph Hr H) as [_ Hx]. exact Hx.
+Qed.
+Print Assumptions C08_certificate_verify_checked_with_the_leaf_key.
 
 (* ---- non-vacuity ----------------------------------------------------------------------------------------- *)
 Definition ex_sig := TCert 1 KIND_SM2 KU_SIGN 101.
